@@ -118,6 +118,10 @@ class Fn:
             x, is_none = self.is_none_test(e.test)
             a, b = (e.body, e.orelse) if is_none else (e.orelse, e.body)
             return "(match %s with | none => %s | some %s => %s)" % (x, self.E(a), x, self.E(b))
+        if isinstance(e, ast.Constant) and isinstance(e.value, str) and self.cfg.get("strings"):
+            return "[" + ", ".join("Char.ofNat %d" % ord(c) for c in e.value) + "]"
+        if isinstance(e, ast.List) and not e.elts:
+            return "[]"
         if isinstance(e, ast.Constant):
             if isinstance(e.value, bool):
                 return "true" if e.value else "false"
@@ -631,6 +635,19 @@ FUNCS.append(
                       "words := {G}, undo := {H}, asNumbers := {I}, reserved := {J}, preservePrefixes := {K}, preserveNetworks := {L}, "
                       "suffixV4 := {M}, suffixV6 := {N} }})")]))
 
+# the arithmetic of the `$9$` codec, on alphabet *indices*: `ALPHA_NUM[c]` / `NUM_ALPHA[i]` are the identity here (a character of the
+# alphabet is represented by its index, as in Model/Juniper.lean; the tables themselves are regenerated data)
+FUNCS.append(
+    dict(module="netconan/utils/juniper_secrets.py", qual="_gap_encode", name="gap_encode", strings=True,
+         sig="(pc : Nat) (prev : Nat) (enc : List Nat) : List Nat", run="Id.run ", add="+",
+         expr_rules=[("ord(A)", "{A}"), ("reversed(A)", "List.reverse {A}"), ("ALPHA_NUM[A]", "{A}"), ("NUM_ALPHA[A]", "{A}"),
+                     ("len(NUM_ALPHA)", "Juniper.A")],
+         stmt_rules=[("gaps.insert(0, A)", "let gaps := {A} :: gaps", ["gaps"]), ("crypt += prev", "let crypt := crypt ++ [prev]", ["crypt"])]))
+FUNCS.append(
+    dict(module="netconan/utils/juniper_secrets.py", qual="_gap", name="gap", sig="(c1 c2 : Nat) : Int", run="Id.run ",
+         expr_rules=[("ALPHA_NUM[A]", "({A} : Int)"), ("len(NUM_ALPHA)", "(Juniper.A : Int)")]))
+FUNCS.append(
+    dict(module="netconan/utils/juniper_secrets.py", qual="_fixedc", name="fixedc", sig="(count : Nat) : List Char", run="Id.run ", strings=True))
 FUNCS.append(
     dict(module="netconan/sensitive_item_removal.py", qual="_extract_enclosing_text", name="extract_enclosing_text",
          sig="(fuel : Nat) (in_val head tail : List Char) : List Char × List Char × List Char", run="Id.run ", add="++",
@@ -706,6 +723,7 @@ GROUPS = {
     "SrcAs": dict(imports=["Netconan.Model.Py", "Netconan.Model.Words"], serves=["C11"],
                   funcs=["generate_as_number_replacement"]),
     "SrcLines": dict(imports=["Netconan.Model.Py", "Netconan.Model.Lines"], serves=["C12", "C13", "C14", "C15"], funcs=["line_step"]),
+    "SrcJun": dict(imports=["Netconan.Model.Py", "Netconan.Model.Juniper"], serves=["C18"], funcs=["gap_encode", "gap", "fixedc"]),
     "SrcCli": dict(imports=["Netconan.Model.Py", "Netconan.Model.Cli"], serves=["C19"], funcs=["main"]),
 }
 
